@@ -606,6 +606,29 @@ def gen_block(rnd, kind=None):
         elif r < 0.4:
             t1 = ("env", rnd.choice(ENV0))
             t2 = t1
+        elif r < 0.75:
+            # two *different* terms that a simplification rule makes equal: one operand goes through an identity
+            # (ADD(a,0), MUL(a,1), AND(a,a), SUB(a,0), NOT(NOT(a)) ...), so the duplicate only appears after the rule
+            def ident(x):
+                k = rnd.randrange(8)
+                if k == 0:
+                    return ("op", "ADD", [x, ("c", 0)] if rnd.random() < 0.5 else [("c", 0), x])
+                if k == 1:
+                    return ("op", "MUL", [x, ("c", 1)] if rnd.random() < 0.5 else [("c", 1), x])
+                if k == 2:
+                    return ("op", rnd.choice(["AND", "OR"]), [x, x])
+                if k == 3:
+                    return ("op", "SUB", [x, ("c", 0)])
+                if k == 4:
+                    return ("op", rnd.choice(["OR", "XOR"]), [x, ("c", 0)])
+                if k == 5:
+                    return ("op", "DIV", [x, ("c", 1)])
+                if k == 6:
+                    return ("op", "NOT", [("op", "NOT", [x])])
+                return ("op", "AND", [x, ("c", MASK)])
+            t2 = ("op", op, [ident(a), b]) if rnd.random() < 0.5 else ("op", op, [a, ident(b)])
+            if rnd.random() < 0.3:
+                t1, t2 = t2, t1
         out = []
         compile_tree(t1, 0, out, nin)
         compile_tree(t2, 1, out, nin)
@@ -901,8 +924,18 @@ def gen_document(rnd, n_contracts=None, blocks_per_stream=None, kinds=None, vers
                                      "0.8.21+commit.d9974bed.Linux.g++"])
     new_style = not version.startswith("0.8.5")
     contracts = {}
+    short_names = []
     for c in range(n_contracts):
-        name = "contracts/File%d.sol:C%d" % (rnd.randrange(3), c)
+        # later contracts are often named after an earlier one (Vault / TokenVault / VaultV2 / aVaultb): selecting
+        # a contract by name must not confuse a name with its suffix, prefix or infix
+        short = "C%d" % c
+        if short_names and rnd.random() < 0.6:
+            base = rnd.choice(short_names)
+            short = rnd.choice(["Token" + base, "Safe" + base, base + "V2", base + "Impl", "a" + base + "b", base.lower()])
+            if short in short_names:
+                short = "C%d" % c
+        short_names.append(short)
+        name = "contracts/File%d.sol:%s" % (rnd.randrange(3), short)
         nb = blocks_per_stream or rnd.randrange(1, 6)
         asm = {".code": _code_stream(rnd, nb, kinds, 1, opt_fields=True)}
         data = {}
